@@ -5,7 +5,7 @@
 package sticky
 
 import (
-	"context"
+	"bytes"
 	"encoding/json"
 	"fmt"
 	"math/rand"
@@ -41,6 +41,8 @@ var scriptOps = map[string][]string{
 
 type rctx struct {
 	kind                 string
+	route                string
+	prep                 bool // a sessionless /init that only obtains stream tokens: not part of the log
 	t                    int
 	prin, w, tok, script string
 	s, ttl               int
@@ -124,7 +126,7 @@ func (r *recorder) startTokenRequest(c *rctx) {
 	c.t = r.lowestFree()
 	r.busy[c.t] = true
 	if c.kind == "resume" {
-		r.emit("resume_ok", "t", c.t, "s", c.s, "prin", c.prin, "w", c.w, "tok", c.tok, "script", c.script)
+		r.emit("resume_ok", "t", c.t, "s", c.s, "prin", c.prin, "w", c.w, "tok", c.tok, "script", c.script, "route", c.route)
 	} else {
 		r.emit("delete_ok", "t", c.t, "s", c.s, "prin", c.prin, "w", c.w, "tok", c.tok)
 	}
@@ -242,10 +244,31 @@ func (r *recorder) onClose(st *sessState) {
 	r.emit("closed", "t", actor, "s", int(st.slot.Load()))
 }
 
-func (r *recorder) handler(_ context.Context, cc *vgirpc.CallContext, _ callParams) (int64, error) {
+// onTick: a Produce / Exchange call starts.
+func (r *recorder) onTick(cc *vgirpc.CallContext) {
+	c := r.ctx()
+	if c == nil || c.prep {
+		return
+	}
+	saw := 0
+	if st, ok := cc.Session().(*sessState); ok && st != nil {
+		saw = int(st.slot.Load())
+	}
+	r.mu.Lock()
+	r.emit("tick", "t", c.t, "saw", saw)
+	r.mu.Unlock()
+	if c.hold > 0 {
+		time.Sleep(c.hold)
+	}
+}
+
+func (r *recorder) userCode(cc *vgirpc.CallContext, _ int64) error {
 	c := r.ctx()
 	if c == nil {
-		return 0, fmt.Errorf("recorder: handler on an unknown goroutine")
+		return fmt.Errorf("recorder: handler on an unknown goroutine")
+	}
+	if c.prep {
+		return nil
 	}
 	r.mu.Lock()
 	if c.kind == "plain" {
@@ -281,7 +304,7 @@ func (r *recorder) handler(_ context.Context, cc *vgirpc.CallContext, _ callPara
 				r.mu.Unlock()
 			}
 			if err != nil {
-				return 0, err
+				return err
 			}
 		case "close":
 			before := c.closeEvents
@@ -295,7 +318,7 @@ func (r *recorder) handler(_ context.Context, cc *vgirpc.CallContext, _ callPara
 			panic("scripted panic")
 		}
 	}
-	return 1, nil
+	return nil
 }
 
 func (r *recorder) build(rng *rand.Rand) error {
@@ -314,11 +337,12 @@ func (r *recorder) build(rng *rand.Rand) error {
 			id = name + "-" + strings.Repeat("y", 280)
 		}
 		srv.SetServerID(id)
-		vgirpc.Unary(srv, "call", r.handler)
+		registerService(srv, r.userCode)
 		h, err := vgirpc.NewHttpServerWithKey(srv, key)
 		if err != nil {
 			return err
 		}
+		h.SetProducerBatchLimit(1)
 		h.SetAuthenticate(func(q *http.Request) (*vgirpc.AuthContext, error) {
 			id, ok := r.idents[q.Header.Get("X-Who")]
 			if !ok || id.auth == nil {
@@ -400,12 +424,46 @@ func (r *recorder) client(seed int64, iters int, spread time.Duration, wg *sync.
 			c.script = pick(rng, "noop", "noop", "noop", "noop", "noop", "noop", "panic", "panic", "close", "close_panic", "close_close", "close_open")
 			c.accept = true
 			c.ttl = 1
+			c.route = pick(rng, "unary", "unary", "unary", "pinit", "pinit", "pcont", "xturn")
+			if c.route == "pcont" || c.route == "xturn" {
+				c.script = "noop"
+			}
+			if c.kind == "delete" {
+				c.route = ""
+			}
 		}
 		if c.kind == "delete" {
 			req = httptest.NewRequest(http.MethodDelete, "/__session__", nil)
 			c.script = ""
 		} else {
-			req = httptest.NewRequest(http.MethodPost, "/call", strings.NewReader(string(requestBody(1))))
+			route := c.route
+			if c.kind == "plain" {
+				route = "unary"
+				c.route = "unary"
+			}
+			var body []byte
+			if route == "pcont" || route == "xturn" {
+				// open the stream first: a sessionless /init by the same caller on the same worker
+				m := routeMethod(route)
+				pre := httptest.NewRequest(http.MethodPost, "/"+m+"/init", bytes.NewReader(requestBodyFor(m, 1)))
+				pre.Header.Set("Content-Type", "application/vnd.apache.arrow.stream")
+				pre.Header.Set("X-Who", c.prin)
+				r.ctxs.Store(g, &rctx{prep: true})
+				prec := httptest.NewRecorder()
+				r.workers[c.w].h.ServeHTTP(prec, pre)
+				r.ctxs.Delete(g)
+				cur, call := vgirpc.FindStreamTokens(prec.Body.Bytes())
+				if cur == nil {
+					r.mu.Lock()
+					r.problems = append(r.problems, fmt.Sprintf("preparatory %s/init returned no token: http %d", m, prec.Code))
+					r.mu.Unlock()
+					continue
+				}
+				body = turnBody(route, cur, call)
+			} else {
+				body = requestBodyFor(routeMethod(route), 1)
+			}
+			req = httptest.NewRequest(http.MethodPost, routePath(route), bytes.NewReader(body))
 			req.Header.Set("Content-Type", "application/vnd.apache.arrow.stream")
 			if c.accept {
 				req.Header.Set("VGI-Session-Accept", "true")
@@ -439,7 +497,7 @@ func (r *recorder) client(seed int64, iters int, spread time.Duration, wg *sync.
 		case !c.sawGet:
 			t := r.lowestFree()
 			if c.kind == "resume" {
-				r.emit("resume_fail", "t", t, "s", c.s, "prin", c.prin, "w", c.w, "tok", c.tok, "script", c.script)
+				r.emit("resume_fail", "t", t, "s", c.s, "prin", c.prin, "w", c.w, "tok", c.tok, "script", c.script, "route", c.route)
 			} else {
 				r.emit("delete_fail", "t", t, "s", c.s, "prin", c.prin, "w", c.w, "tok", c.tok)
 			}
@@ -468,6 +526,9 @@ func recordOne(seed int64, clients, iters int, spread time.Duration) ([]map[stri
 	f := func(st *sessState) { r.onClose(st) }
 	onCloseFn.Store(&f)
 	defer onCloseFn.Store(nil)
+	tf := r.onTick
+	tickFn.Store(&tf)
+	defer tickFn.Store(nil)
 	vgirpc.SetVerifHook(r.hook)
 	defer vgirpc.SetVerifHook(nil)
 
